@@ -274,7 +274,9 @@ func (e *Engine) Explore(fn *ssa.Function, unwind int) *HarnessResult {
 				if pr.Status == "ok" || pr.Status == "panic" {
 					for _, ev := range pr.Events {
 						if ev.Kind == "reach" {
-							if _, have := res.Reach[ev.Label]; !have && pr.Model != nil {
+							// the witness replayed natively is the one that is cheapest to reproduce (fewest leading-zero
+							// bytes asked of random keys and signatures)
+							if cur, have := res.Reach[ev.Label]; pr.Model != nil && (!have || modelCost(pr.Model) < modelCost(cur.Model)) {
 								res.Reach[ev.Label] = pr
 							}
 						}
@@ -539,9 +541,11 @@ func (in *Interp) eventStrings() []string {
 }
 
 // replayCost: how rare the native values are that a counterexample's model asks for.
-func replayCost(v *Violation) int {
+func replayCost(v *Violation) int { return modelCost(v.Model) }
+
+func modelCost(model []interface{}) int {
 	c := 0
-	for _, e := range v.Model {
+	for _, e := range model {
 		if m, ok := e.(map[string]string); ok && m["k"] == "lz" {
 			n, _ := strconv.Atoi(m["v"])
 			c += n
